@@ -67,4 +67,4 @@ pub use static_lut::{
 };
 
 #[cfg(volute_verif)]
-pub use canonization::verif_canon_sequences;
+pub use canonization::{verif_canon_sequences, verif_last_sequences};
